@@ -111,6 +111,11 @@ def selectLink (chosen : Option Link) (power : α) : Link :=
   | some l => l
   | none => defaultLink power
 
+/-- `TweedieRegressorParams::check` (the test on the power) followed by `TweedieRegressorValidParams::link()`:
+`none` = `InvalidTweediePower` (powers strictly between 0 and 1 are rejected before a link is selected) -/
+def checkedLink (chosen : Option Link) (power : α) : Option Link :=
+  if 0 < power ∧ power < 1 then none else some (selectLink chosen power)
+
 /-- `(coefficients, intercept)` of the parameter vector (intercept first) -/
 def splitP (icpt : Bool) (p : List α) : List α × α :=
   if icpt then (p.drop 1, p.headD 0) else (p, 0)
